@@ -99,8 +99,9 @@ def sweep(ctx, pool, configs):
 
 
 def run(ctx):
-    ctx.lean_stage([], ["Verif.Props.C08", "Verif.Props.TokenRules"])
+    ctx.lean_stage([], ["Verif.Props.C08", "Verif.Props.TokenRules", "Verif.Props.RegenLeaf"])
     import blocks
+    blocks.regenleaf(ctx)      # regen_field_local: changing one style field of one leaf token changes only that token's own contribution to the regenerated text
     blocks.tokenrules(ctx)     # mdXXX_fix_only_style: token-level statement of "only style changes" for nine token fixers
     stats_c, samples = F.fix_correspondence(ctx, 40 if ctx.quick() else 600, F.FIX_CORPUS)
     fm = E.fix_meta()
